@@ -7,6 +7,7 @@ Arguments upd : simpl never.
 
 Section Graph.
 Variable loads : label -> list label.
+Variable bad : label -> bool.
 Variable roots : list label.
 
 Notation gplus := (gplus loads).
@@ -70,7 +71,7 @@ Ltac pend_triv := try (intros ? ? ? ? ? [?|?]; discriminate).
 Ltac walk_triv := try (intros; discriminate).
 Ltac start_triv := try (intros; discriminate).
 
-Lemma inv_g_step : forall s tid s', inv_g s -> inv_stk s -> inv_reg s -> kstep loads s tid s' -> inv_g s'.
+Lemma inv_g_step : forall s tid s', inv_g s -> inv_stk s -> inv_reg s -> kstep loads bad s tid s' -> inv_g s'.
 Proof.
   intros s tid s' IG IS IR K.
   pose proof (g_thr _ IG tid) as GT. destruct GT as (G1 & G2 & G3 & G4).
@@ -110,11 +111,11 @@ Proof.
     + apply (Hroot (add_exec (add_reg s r) r)); auto. apply incl_tl, incl_refl.
       intros r0 Hr0. left. left. congruence.
   - (* KDone *) constructor; proj_simpl.
-    + apply (Hthr _ (set_done s m true)); auto.
-      destruct (after_pop_cases rest true) as [-> | ->]; apply thr_g_mk; pend_triv; walk_triv; start_triv; eauto.
+    + apply (Hthr _ (set_done s m (negb (bad m)))); auto.
+      destruct (after_pop_cases rest (negb (bad m))) as [-> | ->]; apply thr_g_mk; pend_triv; walk_triv; start_triv; eauto.
     + intros m0 t. rewrite E_set_thr, E_set_done. apply (g_edge _ IG).
     + apply (g_reg _ IG).
-    + apply (Hroot (set_done s m true)); auto. apply incl_refl. intros; congruence.
+    + apply (Hroot (set_done s m (negb (bad m)))); auto. apply incl_refl. intros; congruence.
   - (* KFail *) constructor; proj_simpl.
     + apply (Hthr _ (set_done s m false)); auto.
       destruct (after_pop_cases rest false) as [-> | ->]; apply thr_g_mk; pend_triv; walk_triv; start_triv; eauto.
